@@ -25,6 +25,8 @@ pub struct Cfg {
     pub anon_records: bool,
     pub trk: bool,
     pub trkz: bool,
+    /// programs may read the registered constants of the harness runtime (`host::host_consts`)
+    pub host_consts: bool,
     /// script constants may own drop-tracked values (only the differential families, whose
     /// ledger keeps what compilation created as a baseline, switch this on)
     pub trk_consts: bool,
@@ -77,6 +79,7 @@ impl Cfg {
             anon_records: false,
             trk: false,
             trkz: false,
+            host_consts: true,
             trk_consts: false,
             fns: (1, 5),
             max_depth: 5,
@@ -105,6 +108,7 @@ impl Cfg {
             anon_records: true,
             trk: true,
             trkz: true,
+            host_consts: true,
             trk_consts: false,
             fns: (1, 4),
             max_depth: 4,
@@ -129,6 +133,7 @@ impl Cfg {
             anon_records: true,
             trk: true,
             trkz: true,
+            host_consts: true,
             trk_consts: false,
             fns: (1, 4),
             max_depth: 4,
@@ -1957,6 +1962,26 @@ impl Gen {
             self.prog.consts.push(ConstDecl { name: name.clone(), ty: ty.clone(), init });
             const_infos.push((name, ty));
             self.tag("decl:const".into());
+        }
+
+        // registered constants of the harness runtime: visible like script constants (a random
+        // subset, so that they do not crowd out the program's own names)
+        if self.cfg.host_consts {
+            for (n, t, _) in crate::host::host_consts() {
+                let ok = match &t {
+                    Ty::Str => self.cfg.strings,
+                    Ty::F64 | Ty::F32 => self.cfg.floats,
+                    Ty::Char => self.cfg.chars,
+                    Ty::Opt(a) => self.cfg.options && (**a != Ty::Str || self.cfg.strings),
+                    Ty::Verdict(..) => self.cfg.options && self.cfg.strings,
+                    Ty::Int(i) => self.cfg.ints.contains(i),
+                    _ => true,
+                };
+                if ok && self.rng.chance(1, 3) {
+                    const_infos.push((n.to_string(), t));
+                    self.tag("decl:registered-constant-visible".into());
+                }
+            }
         }
 
         // signatures
